@@ -4,6 +4,8 @@ mod c15;
 mod c16;
 mod c20;
 mod core;
+mod gchecks;
+mod gprog;
 mod reflex;
 mod refpos;
 mod synchecks;
@@ -15,6 +17,10 @@ use crate::core::{Check, Tier};
 static C01: synchecks::SynCheck = synchecks::SynCheck { mode: synchecks::Mode::Lossless };
 static C02: synchecks::SynCheck = synchecks::SynCheck { mode: synchecks::Mode::Totality };
 
+static C05: gchecks::GCheck = gchecks::GCheck { mode: gchecks::GMode::Resolution };
+static C13: gchecks::GCheck = gchecks::GCheck { mode: gchecks::GMode::Diagnostics };
+static C18: gchecks::GCheck = gchecks::GCheck { mode: gchecks::GMode::Outline };
+static C19: gchecks::GCheck = gchecks::GCheck { mode: gchecks::GMode::Hover };
 static C10: c10::C10 = c10::C10;
 static C14: c14::C14 = c14::C14;
 static C15: c15::C15 = c15::C15;
@@ -22,7 +28,7 @@ static C16: c16::C16 = c16::C16;
 static C20: c20::C20 = c20::C20;
 
 fn registry() -> Vec<&'static dyn Check> {
-    vec![&C01, &C02, &C10, &C14, &C15, &C16, &C20]
+    vec![&C01, &C02, &C05, &C10, &C13, &C18, &C19, &C14, &C15, &C16, &C20]
 }
 
 fn usage() -> ! {
@@ -36,6 +42,56 @@ fn main() {
         usage();
     }
     let id = args[1].clone();
+    if id == "gprog-sample" {
+        let n: u64 = args.get(2).and_then(|s| s.parse().ok()).unwrap_or(1);
+        let seed: u64 = args.get(3).and_then(|s| s.parse().ok()).unwrap_or(1);
+        for k in 0..n {
+            let mut rng = core::Rng::derive(seed, 0x6, k);
+            let cfg = gprog::Cfg::default_for(&mut rng);
+            let p = gprog::generate(&mut rng, cfg);
+            for (path, text) in &p.files {
+                println!("=== {} ===\n{}", path, text);
+            }
+            println!("--- decls {} uses {} hints {} folds {} faults {}", p.decls.len(), p.uses.len(), p.hints.len(), p.folds.len(), p.fault_sites.len());
+        }
+        return;
+    }
+    if id == "gprog-triage" {
+        let n: u64 = args.get(2).and_then(|s| s.parse().ok()).unwrap_or(100);
+        let seed: u64 = args.get(3).and_then(|s| s.parse().ok()).unwrap_or(1);
+        let (mut rejected, mut diag) = (0, 0);
+        let mut shown = std::collections::BTreeSet::new();
+        for k in 0..n {
+            let mut rng = core::Rng::derive(seed, 0x6, k);
+            let cfg = gprog::Cfg::default_for(&mut rng);
+            let p = gprog::generate(&mut rng, cfg);
+            if let gprog::audit::Audit::Rejected(e) = gprog::audit::run(&p, "triage") {
+                rejected += 1;
+                let key: String = e.split("error:").nth(1).unwrap_or(&e).chars().filter(|c| !c.is_ascii_digit()).take(40).collect();
+                if shown.insert(format!("T{}", key)) {
+                    println!("TBLGEN REJECTS k={}: {}", k, e);
+                }
+            }
+            let l = ws::load(&p.workspace());
+            let d = l.analysis().diagnostics();
+            for (f, ds) in d {
+                for x in ds {
+                    diag += 1;
+                    let key: String = x.message.chars().filter(|c| !c.is_ascii_digit()).take(30).collect();
+                    if shown.insert(format!("D{}", key)) {
+                        let path = l.fs.path_of(f).unwrap_or_default();
+                        let text = p.files.iter().find(|q| q.0 == path).map(|q| q.1.clone()).unwrap_or_default();
+                        let (a, b) = (usize::from(x.location.range.start()), usize::from(x.location.range.end()));
+                        let ls = text[..a.min(text.len())].rfind('\n').map(|i| i + 1).unwrap_or(0);
+                        let le = text[b.min(text.len())..].find('\n').map(|i| i + b).unwrap_or(text.len());
+                        println!("DIAG k={} {}: {} @ {:?} in line: {}", k, path, x.message, &text[a.min(text.len())..b.min(text.len())], &text[ls..le]);
+                    }
+                }
+            }
+        }
+        println!("programs {} tblgen-rejected {} diagnostics {}", n, rejected, diag);
+        return;
+    }
     let Some(check) = registry().into_iter().find(|c| c.id() == id) else {
         println!("INCONCLUSIVE property={} reason=no such check in this build", id);
         std::process::exit(2);
